@@ -510,6 +510,9 @@ func (vc *VC) execInstr(fr *frame, st *State, ins ssa.Instruction) {
 			vc.anchorAsserts(fr, st, lab, extra, x.Pos())
 		}
 		fr.vals[x] = vc.execCall(fr, st, x)
+		if lab, ok := fr.anchors[x]; ok && fr.contract != nil {
+			vc.anchorPost(fr, st, lab)
+		}
 	case *ssa.Defer:
 		st.defers = append(st.defers, deferred{x, fr})
 	case *ssa.RunDefers:
